@@ -282,6 +282,7 @@ def correspondence(ctx):
             S.close()
     # ---- the shipped configuration: the documented 'all_attackers' wildcard in the Defender's goal
     probe_shipped(ctx, nsgenv, CR)
+    probe_role_limits(ctx, nsgenv)
     # ---- dynamic addresses: the configured start position is what the game uses for agents joining after re-labellings
     from props import dynprobe
     dynprobe.run(ctx, "C19")
@@ -357,6 +358,40 @@ def self_picks(S, a, picks_by):
     return picks_by.get(a, [])
 
 
+def probe_role_limits(ctx, nsgenv):
+    """max_steps takes the configured value for EVERY role: a Defender with its own limit, playing while an attacker is active."""
+    from nsgenv import msg, ip
+    for dlim, alim in ((2, 6), (3, 5)):
+        cfg = nsgenv.base_config("scenario1_small", required_players=2)
+        cfg["coordinator"]["agents"]["Attacker"]["max_steps"] = alim
+        cfg["coordinator"]["agents"]["Attacker"]["goal"]["known_data"] = {}
+        cfg["coordinator"]["agents"]["Attacker"]["goal"]["known_hosts"] = ["1.1.1.1"]
+        cfg["coordinator"]["agents"]["Defender"]["max_steps"] = dlim
+        cfg["coordinator"]["agents"]["Defender"]["goal"]["known_data"] = {"1.1.1.1": [["x", "y"]]}
+        replay = {"kind": "role_limits", "defender_max_steps": dlim, "attacker_max_steps": alim}
+        d = nsgenv.start(cfg)
+        try:
+            g = d.g
+            a, b = ("10.3.8.1", 801), ("10.3.8.2", 802)
+            d.connect(a); d.connect(b); d.settle()
+            d.send(a, nsgenv.join("att", "Attacker")); d.settle()
+            d.send(b, nsgenv.join("def", "Defender")); d.settle()
+            d.new_output(a); d.new_output(b)
+            d.send(a, msg("FindData", source_host=ip("192.168.2.2"), target_host=ip("192.168.2.2"))); d.settle()     # the attacker is active
+            for k in range(dlim):
+                if g._episode_ends.get(b):
+                    ctx.violations.append({"key": "defender step limit", "what": f"the Defender's episode ended after {k} steps, max_steps={dlim} is configured", "replay": replay})
+                    break
+                ctrl = sorted(str(h) for h in g._agent_states[b].controlled_hosts)
+                d.send(b, msg("FindData", source_host=ip(ctrl[0]), target_host=ip(ctrl[0]))); d.settle()
+            if not g._episode_ends.get(b) or g._agent_steps.get(b) != dlim:
+                ctx.violations.append({"key": "defender step limit", "what": f"max_steps={dlim} is configured for the Defender, but after {g._agent_steps.get(b)} steps its episode has {'ended' if g._episode_ends.get(b) else 'not ended'} (no step limit applied to this role)", "replay": replay})
+            if d.task_errors:
+                ctx.violations.append({"key": "task died in the role-limit probe", "what": str(d.task_errors[:1]), "replay": replay})
+        finally:
+            d.close()
+
+
 def probe_shipped(ctx, nsgenv, CR):
     """The shipped configuration: Defender goal known_blocks {213.47.23.195: 'all_attackers'}."""
     path = os.path.join(CK.REPO, "AIDojoCoordinator", "netsecenv_conf.yaml")
@@ -394,6 +429,15 @@ def probe_shipped(ctx, nsgenv, CR):
 
 
 def replay(ctx, payload):
+    if payload.get("kind") == "role_limits":
+        nsgenv, WL, WR, CR = _imports()
+        c2 = CK.Ctx("C19", "quick", 1)
+        probe_role_limits(c2, nsgenv)
+        for v in c2.violations:
+            print(v["what"])
+        if c2.violations:
+            print("VIOLATION property=C19 replay=(this file)")
+        return 1 if c2.violations else 0
     if payload.get("kind") == "dynamic_join_probe":
         from props import dynprobe
         c2 = CK.Ctx("C19", "quick", 1)
